@@ -51,7 +51,7 @@ type conf struct {
 	overlap                         bool       // trace mode: job snapshot writes are held and land in seeded order; checkpoints are started meanwhile
 	mem                             []int      // dkv memtable sizes to run with, one per behaviour / generation in turn (0 = the repo's default); empty: no tuning
 	lvl, amp                        int        // dkv.smallestLevelSize / dkv.maxSizeAmpPct under tuning (0 = default)
-	swapDelayUs                     int        // every other tuned generation: flush / compaction swaps are delayed by up to this many microseconds
+	swapDelayUs                     int        // every third tuned generation: flush / compaction swaps are delayed by up to this many microseconds
 }
 
 // nk is the number of model keys.
@@ -165,7 +165,7 @@ func (c *conf) tuneFor(turn int) int {
 		if c.amp == 0 && turn%3 == 1 {
 			t.MaxSizeAmpPct = cluster.NeverMajor // only minor compactions (L0+L1 -> L1, cascading)
 		}
-		if turn%2 == 0 {
+		if turn%3 == 0 {
 			t.SwapDelay = time.Duration(c.swapDelayUs) * time.Microsecond // slow background tasks: DKV checkpoints race with flushes in flight
 		}
 	}
@@ -1084,6 +1084,7 @@ func traceRun(cf *conf, rng *rand.Rand, in *mbt.Input, res *mbt.Result) []any {
 	// overlap mode: snapshot writes parked at the store gate, landed by the driver in seeded order
 	var writes []*gate.Arrival
 	jobDead := false
+	npub := 0 // publications of this run that landed (overlap mode)
 	pollWrites := func() (arrived bool) {
 		if !cf.overlap {
 			return false
@@ -1131,6 +1132,7 @@ func traceRun(cf *conf, rng *rand.Rand, in *mbt.Input, res *mbt.Result) []any {
 				if o.Superseded {
 					res.Count("supersededWrites", 1) // landed after a newer one: the job removes the file again
 				} else {
+					npub++
 					readBack(o) // right away: the next write that lands makes this one obsolete
 				}
 			}
@@ -1201,7 +1203,12 @@ func traceRun(cf *conf, rng *rand.Rand, in *mbt.Input, res *mbt.Result) []any {
 			}
 		}
 		switch x := rng.Intn(100); {
-		case x < 30 && !ckptOpen && !anyDead && ckpts > 0:
+		case x < 30 && !ckptOpen && !anyDead && ckpts > 0 && (len(cf.mem) == 0 || read >= 2):
+			// (tuned dkv: no checkpoint of the still empty job; and, seeded coin, let the background tasks of the
+			// writes so far finish first, so that the DKV checkpoints consist of tables as often as of sealed memtables)
+			if len(cf.mem) > 0 && rng.Intn(2) == 0 && cluster.DkvQuiet(20*time.Millisecond) {
+				res.Count("settled", 1)
+			}
 			ckpts--
 			ckptOpen = true
 			if len(writes) > 0 {
@@ -1211,7 +1218,8 @@ func traceRun(cf *conf, rng *rand.Rand, in *mbt.Input, res *mbt.Result) []any {
 			go c.TickCheckpoint()
 		case x < 60:
 			releaseAcks(c.Sched(), 1+rng.Intn(4))
-		case x < 64 && kills > 0 && !anyDead && read > 0:
+		case x < 64 && kills > 0 && !anyDead && read > 0 && (len(cf.mem) == 0 || npub > 0 || rng.Intn(3) == 0):
+			// (tuned dkv: two kills out of three wait for a publication, so that restarts restore from something)
 			kills--
 			var nodes []string
 			for len(nodes) == 0 {
